@@ -3,6 +3,8 @@ package main
 import (
 	"fmt"
 	"go/types"
+
+	"golang.org/x/tools/go/ssa"
 	"sort"
 	"strings"
 )
@@ -66,6 +68,27 @@ func (ctx *Ctx) GenVC(fc *FuncContract) (res *FuncResult) {
 		entry.assume(vc.rangeAssumption(t, p.Type(), entry.alloc))
 		vc.inputs = append(vc.inputs, WatchTerm{p.Name(), t})
 	}
+	// pre-register the heap sorts of every type the function mentions
+	for _, b := range fn.Blocks {
+		for _, in := range b.Instrs {
+			if v, ok := in.(ssa.Value); ok {
+				t := v.Type()
+				if p, ok := t.Underlying().(*types.Pointer); ok {
+					t = p.Elem()
+				}
+				if _, isTuple := t.(*types.Tuple); !isTuple {
+					leaf := map[Sort]bool{}
+					func() {
+						defer func() { recover() }()
+						vc.leafSorts(t, leaf)
+					}()
+					for s := range leaf {
+						vc.heapReg[s] = true
+					}
+				}
+			}
+		}
+	}
 	fr.entry = entry.clone()
 	vc.entryState = fr.entry
 	env := fr.baseEnv(entry)
@@ -109,6 +132,25 @@ func (ctx *Ctx) GenVC(fc *FuncContract) (res *FuncResult) {
 	bindResults(penv, fn.Signature, results)
 	for i, r := range results {
 		vc.inputs = append(vc.inputs, WatchTerm{fmt.Sprintf("result%d", i), r})
+	}
+	// ghost assignments attached to the function exit
+	for _, gs := range fc.Sets {
+		gv := ctx.ghostVars[fc.PkgPath+"::"+gs.Var]
+		if gv == nil {
+			res.Err = "sets: unknown ghost variable " + gs.Var
+			return res
+		}
+		v, err := penv.Eval(gs.E)
+		if err != nil {
+			res.Err = fmt.Sprintf("sets %s does not resolve: %v", gs.Var, err)
+			return res
+		}
+		cur, _, _ := vc.ghostVar(exit, gv)
+		t := v.T
+		if v.Lit != nil {
+			t = penv.litTerm(v.Lit, cur.Sort)
+		}
+		exit.ghost["gv!"+gv.PkgPath+"::"+gv.Name] = vc.Define("gs", t)
 	}
 	for _, en := range fc.Ensures {
 		t, err := penv.EvalBool(en.E)
@@ -237,6 +279,9 @@ func (ctx *Ctx) frameObligation(vc *VC, fr *Frame, fc *FuncContract, exit *State
 	for _, g := range fc.Assigns {
 		assigned[fc.PkgPath+"::"+g] = true
 	}
+	for _, gs := range fc.Sets {
+		assigned[fc.PkgPath+"::"+gs.Var] = true
+	}
 	var gk []string
 	for k := range exit.ghost {
 		gk = append(gk, k)
@@ -332,7 +377,11 @@ func (vc *VC) Query(o *Obligation, forCVC5 bool, withModel bool) string {
 		sb.WriteString("(set-option :produce-models true)\n")
 	}
 	sb.WriteString(smtPrelude)
-	sb.WriteString(vc.tt.Decls())
+	if vc.declsCache != "" {
+		sb.WriteString(vc.declsCache)
+	} else {
+		sb.WriteString(vc.tt.Decls())
+	}
 	if forCVC5 {
 		sb.WriteString(vc.declsC.String())
 	} else {
